@@ -505,7 +505,10 @@ class SourceGenerator(NodeVisitor):
             self.visit(arg)
         for keyword in node.keywords:
             write_comma()
-            self.write(keyword.arg + "=")
+            if keyword.arg is None:
+                self.write("**")
+            else:
+                self.write(keyword.arg + "=")
             self.visit(keyword.value)
         if getattr(node, "starargs", None):
             write_comma()
@@ -555,9 +558,13 @@ class SourceGenerator(NodeVisitor):
         for idx, (key, value) in enumerate(zip(node.keys, node.values)):
             if idx:
                 self.write(", ")
-            self.visit(key)
-            self.write(": ")
-            self.visit(value)
+            if key is None:
+                self.write("**")
+                self.visit(value)
+            else:
+                self.visit(key)
+                self.write(": ")
+                self.visit(value)
         self.write("}")
 
     def visit_BinOp(self, node):
